@@ -39,10 +39,19 @@ SRC_SPECS = [
 RULE = ('tables 2-8 nodes per axis, magnitudes 1e-40..1, 1-6 wavenumbers, optional k-table layout (1-4 g-points), '
         'linear/exp mode, optional wavenumber sub-range; (T,P) drawn by quota: interior, 8 outside regions, exact '
         'nodes, exact edges, +-1ulp around nodes, first/last node of one axis x other axis outside/inside, corner nodes. distinct non-trivial = distinct (mode, layout, region, nT, nP) '
-        'with a non-constant table')
+        'with a non-constant table. served stream: the same tables written as REAL containers (pickle / HDF5 cross-sections, '
+        'pickle / HDF5 k-tables; double or single precision on disk) and handed out by a route (loader called directly, in '
+        'memory or streamed; discovered by OpacityCache / KTableCache after set_interpolation; nothing configured; put into '
+        'the cache by hand with its own mode, with or without a later set_interpolation that may repeat the recorded mode; '
+        'a parameter file; a mode set and then taken back), each object evaluated at the drawn point and two cell interiors, '
+        'judged in the mode the cache model (CacheConf.stepX/stepXK, driver_c14) says is in force')
 ASSUMPTIONS = ['np.searchsorted(a, v) on a sorted array = number of elements < v',
                'grids strictly increasing, T > 0, table entries >= 0 (> 0 in exp mode)',
-               'rounding: model on Float vs numpy/numba doubles compared to 1e-9 relative + 1e-13*max|table|']
+               'rounding: model on Float vs numpy/numba doubles compared to 1e-9 relative + 1e-13*max|table|',
+               'served stream: the containers (pickle, h5py) return the numbers written; a table stored in single precision '
+               'tabulates the float32 values; pressures written in bar come back as (Pa/1e5)*1e5; single-precision '
+               'tables in containers whose loader keeps float32 (pickle and HDF5 cross-sections, pickle k-tables, streamed '
+               'HDF5 k-tables) are judged at single precision: 5e-5 of the largest node of the cell + 8 float32 subnormal steps']
 
 
 def make_opacity(tg, pg, tab, wn, mode, weights=None):
@@ -78,16 +87,23 @@ REGIONS = ['interior', 'Tlo', 'Thi', 'Plo', 'Phi', 'TloPlo', 'TloPhi', 'ThiPlo',
            'bnode_out', 'bnode_in', 'corner_node']
 
 
-def gen_case(rng, k):
+def gen_case(rng, k, via_bar=False, single=False, layout=None):
+    """`via_bar`: the pressure axis is the one a container storing bar gives back ((Pa / 1e5) * 1e5); `single`: the table
+    holds values representable in single precision (what a container storing float32 tabulates); `layout`: force the
+    cross-section ('xsec') or k-table ('ktable') layout"""
     nT = int(rng.integers(2, 9))
     nP = int(rng.integers(2, 9))
     tg = np.sort(rng.choice(np.arange(50, 4000, 7.0), size=nT, replace=False)) + rng.random() * 3
     # pressures in Pa; quota: a table that reaches down to extremely low pressures (1e-9 Pa), queried there
     plo, phi = (-3.0, 7.5) if rng.random() < 0.75 else (-9.0, 3.0)
     pg = 10 ** np.sort(rng.choice(np.linspace(plo, phi, 64), size=nP, replace=False))
+    if via_bar:
+        pg = (pg / 1e5) * 1e5
     mode = 'linear' if rng.random() < 0.5 else 'exp'
     nwn = int(rng.integers(1, 7))
     ng = 0 if rng.random() < 0.6 else int(rng.integers(1, 5))
+    if layout is not None:
+        ng = 0 if layout == 'xsec' else max(ng, 1)
     e = rng.uniform(-40, 0)
     shape = (nP, nT, nwn) if ng == 0 else (nP, nT, nwn, ng)
     tab = 10 ** (e + rng.uniform(-2, 2, size=shape))
@@ -96,6 +112,8 @@ def gen_case(rng, k):
         tab[rng.random(shape) < 0.2] = 0.0
     if rng.random() < 0.05:
         tab[...] = tab.flat[0]
+    if single:
+        tab = tab.astype(np.float32).astype(float)
     wn = np.sort(rng.choice(np.arange(100, 5000, 3.0), size=nwn, replace=False))
     region = REGIONS[k % len(REGIONS)]
     lp = np.log10(pg)
@@ -182,11 +200,14 @@ def bracket(g, v):
 
 
 def eval_case(ctx, c, from_corpus=False):
-    tg, pg, tab, wn, mode = (np.asarray(c['tg'], float), np.asarray(c['pg'], float), np.asarray(c['tab'], float),
-                             np.asarray(c['wn'], float), c['mode'])
+    tg, pg, tab, mode = np.asarray(c['tg'], float), np.asarray(c['pg'], float), np.asarray(c['tab'], float), c['mode']
+    # (a stored failing case keeps the table and the point; the wavenumber axis / weights do not enter the values)
+    wn = np.asarray(c['wn'], float) if c.get('wn') is not None else 100.0 + np.arange(tab.shape[2])
     T, P, sub = c['T'], c['P'], c.get('sub')
     weights = c.get('weights')
     weights = None if weights is None else np.asarray(weights, float)
+    if weights is None and tab.ndim == 4:
+        weights = np.full(tab.shape[3], 1.0 / tab.shape[3])
     op = make_opacity(tg, pg, tab, wn, mode, weights)
     req = None if sub is None else wn[sub[0]:sub[1] + 1].copy()
     small = dict(mode=mode, T=T, P=P, tg=tg, pg=pg, region=c.get('region'), shape=list(tab.shape), sub=sub)
@@ -207,7 +228,31 @@ def eval_case(ctx, c, from_corpus=False):
     ctx.bucket('layout:' + ('ktable' if tab.ndim == 4 else 'xsec'))
     ctx.check_close('Opacity.opacity vs Interp.computeOpacity', out, mod, dict(small, tab=tab), rel=1e-9,
                     abs_=1e-13 * scale)
-    # ---- the property's own predicates, on the implementation
+    predicates(ctx, out, tg, pg, tab, tabs, T, P, mode, small)
+
+
+def documented_interior(mode, tg, lp, t2, T, logP):
+    """the documented interior forms evaluated directly (cm2): bilinear in (T, log10 P); or linear in log10 P on both
+    temperature nodes, then a^(1-lam) b^lam with lam = Tmax (T - Tmin) / (T (Tmax - Tmin))"""
+    import math
+    j = int(np.searchsorted(tg, T, side='right')) - 1
+    i = int(np.searchsorted(lp, logP, side='right')) - 1
+    s = (logP - lp[i]) / (lp[i + 1] - lp[i])
+    u = (T - tg[j]) / (tg[j + 1] - tg[j])
+    if mode == 'linear':
+        return ((1 - s) * (1 - u) * t2[i, j] + (1 - s) * u * t2[i, j + 1] + s * (1 - u) * t2[i + 1, j]
+                + s * u * t2[i + 1, j + 1])
+    a = t2[i, j] + s * (t2[i + 1, j] - t2[i, j])
+    b = t2[i, j + 1] + s * (t2[i + 1, j + 1] - t2[i, j + 1])
+    lam = tg[j + 1] * (T - tg[j]) / (T * (tg[j + 1] - tg[j]))
+    return math.exp((1 - lam) * math.log(a) + lam * math.log(b))
+
+
+def predicates(ctx, out, tg, pg, tab, tabs, T, P, mode, small, kp='', rel=1e-9, floor=0.0):
+    """the property's own predicates, on the implementation's output `out` for the table `tab` (list `tabs` of P x T
+    tables in output order) in the interpolation mode `mode` that is in force; `kp` prefixes the violation keys; `rel` /
+    `floor`: rounding allowance relative to the largest node of the cell / absolute (double precision by default; the
+    precision of the stored table where a loader keeps a single-precision table in float32)"""
     import math
     lp = np.log10(pg)
     logP = math.log10(P)          # the code compares math.log10(P) with np.log10(grid)
@@ -216,6 +261,7 @@ def eval_case(ctx, c, from_corpus=False):
     if any((P < q) != (logP < l) or (P > q) != (logP > l) for q, l in zip(pg, lp)):
         ctx.bucket('ulp-ambiguous-not-judged')
         return
+    inside = bool(tg[0] < T < tg[-1] and lp[0] < logP < lp[-1])
     tl, tr = bracket(tg, T)
     pl, pr = bracket(lp, logP)
     ti = sorted({tl, tr})
@@ -231,22 +277,29 @@ def eval_case(ctx, c, from_corpus=False):
         lo, hi = min(nodes) / 1e4, max(nodes) / 1e4
         v = out[k]
         both_min = (T < tg[0]) and (logP < lp[0])
-        eps = 1e-9 * max(t2[i, j] for i in ci for j in cj) / 1e4 + 1e-300
+        eps = rel * max(t2[i, j] for i in ci for j in cj) / 1e4 + floor + 1e-300
         if both_min:
             if v != 0.0:
-                ctx.violation('bothmin-nonzero', 'below both Tmin and Pmin the documented value is zero',
+                ctx.violation(kp + 'bothmin-nonzero', 'below both Tmin and Pmin the documented value is zero',
                               dict(small, tab=tab), dict(value=v))
             continue
         if not np.isfinite(v) or v < -eps:
-            ctx.violation('negative-or-nonfinite:' + region_of(tg, lp, T, P), 'cross-section negative or not finite',
+            ctx.violation(kp + 'negative-or-nonfinite:' + region_of(tg, lp, T, P), 'cross-section negative or not finite',
                           dict(small, tab=tab), dict(value=v, lo=lo, hi=hi))
         elif v < lo - eps or v > hi + eps:
-            ctx.violation('outside-bracket:' + region_of(tg, lp, T, P),
+            ctx.violation(kp + 'outside-bracket:' + region_of(tg, lp, T, P),
                           'cross-section outside [min,max] of the bracketing nodes (extrapolated)',
                           dict(small, tab=tab), dict(value=v, lo=lo, hi=hi))
         if len(nodes) == 1 and not C.close(v, nodes[0] / 1e4, rel=1e-12, abs_=eps):
-            ctx.violation('node-not-reproduced:' + region_of(tg, lp, T, P), 'tabulated value not reproduced at a node',
+            ctx.violation(kp + 'node-not-reproduced:' + region_of(tg, lp, T, P), 'tabulated value not reproduced at a node',
                           dict(small, tab=tab), dict(value=v, node=nodes[0] / 1e4))
+        # inside a cell: the documented form of the mode in force (exp mode is defined for positive tables)
+        if inside and (mode == 'linear' or all(t2[i, j] > 0 for i in ci for j in cj)):
+            doc = documented_interior(mode, tg, lp, t2, T, logP) / 1e4
+            if not C.close(v, doc, rel=1e-9, abs_=eps):
+                ctx.violation(kp + 'interior-form:' + mode, 'inside a cell the value is not the documented %s form'
+                              % ('bilinear' if mode == 'linear' else 'exp-in-1/T, linear-in-log P'),
+                              dict(small, tab=tab), dict(value=v, documented=doc, k=k))
 
 
 def region_of(tg, lp, T, P):
@@ -317,9 +370,246 @@ def reuse_stream(ctx):
                                       dict(reused=out[:4], fresh=fresh[:4]))
 
 
+# ----------------------------------------------------------------------------- tables served from real containers
+# The property is about "the cross-section returned for a molecule": the object a user gets is built by a loader from a
+# file and reaches its interpolation mode by a configuration route.  One generated table is written as a REAL container
+# (pickle / HDF5 cross-sections, pickle / HDF5 k-tables; stored in double or in single precision), handed out by one of the
+# routes below, and its opacity(T, P, wngrid) is judged exactly like the in-memory objects above: against
+# Interp.computeOpacity on the tabulated numbers in the mode the configuration selects, then by the property's predicates.
+# Which mode that is, is taken from the cache model (driver_c14: CacheConf.stepX / stepXK run on the same history).
+CONTAINERS = ['pickle', 'hdf', 'kpickle', 'khdf']
+ROUTES = ['ctor', 'cache', 'cache-default', 'hand', 'hand-then-set', 'parfile', 'set-then-unset']
+SERVED_MOLS = ['H2O', 'CH4', 'CO2', 'NH3']
+MODES = ['linear', 'exp']
+# single-precision containers whose loader keeps the table in float32 on the unchanged tree: the kernels and the cm2 -> m2
+# division then run in single precision, so the stored table is reproduced to SINGLE precision (every value carries up to
+# ~1e-5 relative rounding of the cell's largest node; values below the float32 normal range, < 1e-34 cm2, are subnormal).
+# The property does not promise more than the precision of the stored table: these cases are judged with the
+# single-precision allowance below (DESIGN §5), all others at double precision
+SINGLE_REL, SINGLE_FLOOR = 5e-5, 8 * 1.401298464324817e-45     # float32: eps 6e-8 x conditioning; smallest subnormal
+SINGLE_KEPT = {('pickle', None), ('hdf', None), ('kpickle', None), ('khdf', 'streamed')}
+
+
+def write_container(path_dir, container, mol, c, single):
+    """write the table of case `c` (axes in SI, table in cm2) as a real file of the given container; returns the path"""
+    import os
+    from harness import c14 as W
+    x = np.asarray(c['tab'], np.float32 if single else float)
+    if container in ('pickle', 'hdf'):
+        tab = dict(wn=c['wn'], t=c['tg'], p=c['pg'], x=x)
+        if container == 'pickle':
+            path = os.path.join(path_dir, mol + '.R100.pickle')
+            W.write_pickle(path, tab)
+        else:
+            path = os.path.join(path_dir, 'table_of_' + mol + '.h5')
+            W.write_hdf(path, tab, 'bar', mol)
+    else:
+        ktab = dict(wn=c['wn'], t=c['tg'], p=c['pg'], k=x, weights=c['weights'])
+        if container == 'kpickle':
+            path = os.path.join(path_dir, mol + '.R100.pickle')
+            W.write_kpickle(path, ktab, mol)
+        else:
+            path = os.path.join(path_dir, mol + '_R100.h5')
+            W.write_khdf(path, ktab, 'bar')
+    return path
+
+
+def construct(container, path, mode, streamed=False):
+    """the loader class called directly (mode None: the class's own default)"""
+    from taurex.opacity import PickleOpacity, HDF5Opacity
+    from taurex.opacity.ktables.picklektable import PickleKTable
+    from taurex.opacity.ktables.hdfktable import HDF5KTable
+    kw = {} if mode is None else dict(interpolation_mode=mode)
+    if container == 'pickle':
+        return PickleOpacity(path, **kw)
+    if container == 'hdf':
+        return HDF5Opacity(path, in_memory=not streamed, **kw)
+    if container == 'kpickle':
+        return PickleKTable(path, **kw)
+    return HDF5KTable(path, in_memory=not streamed, **kw)
+
+
+def gen_served(rng, k):
+    container = CONTAINERS[k % 4]
+    single = (k // 4) % 3 == 2
+    route = ROUTES[(k // 12) % len(ROUTES)]
+    c = gen_case(rng, int(rng.integers(0, 15 * 8)), via_bar=True, single=single,
+                 layout='xsec' if container in ('pickle', 'hdf') else 'ktable')
+    # every served object is also evaluated at two points strictly inside cells (where the two modes differ)
+    tg, lp = c['tg'], np.log10(c['pg'])
+    c['extra'] = []
+    for _ in range(2):
+        i, j = int(rng.integers(0, len(tg) - 1)), int(rng.integers(0, len(lp) - 1))
+        c['extra'].append([float(tg[i] + rng.uniform(0.1, 0.9) * (tg[i + 1] - tg[i])),
+                           float(10 ** (lp[j] + rng.uniform(0.1, 0.9) * (lp[j + 1] - lp[j])))])
+    c.update(container=container, single=single, route=route, mol=SERVED_MOLS[int(rng.integers(0, 4))],
+             streamed=bool(container in ('hdf', 'khdf') and route == 'ctor' and rng.random() < 0.5),
+             recorded=[None, 'linear', 'exp'][int(rng.integers(0, 3))],       # mode in force before the hand-made object
+             own=[None, 'linear', 'exp'][int(rng.integers(0, 3))],            # mode the hand-made object is built with
+             served=True)
+    if route == 'cache-default':
+        c['mode'] = 'linear'          # nothing configured: the documented default
+    if route == 'hand' and c['own'] != 'linear' and np.any(c['tab'] == 0):
+        # the hand-made object may interpolate in exp mode (its own choice or its class default): positive entries only
+        pos = c['tab'][c['tab'] > 0]
+        c['tab'] = np.where(c['tab'] == 0, pos.min() if pos.size else float(np.float32(1e-30)), c['tab'])
+    if route == 'hand-then-set' and k % 2 == 0:
+        # corner quota: the mode asked for is the one already recorded (None standing for linear), so the set is a repeat
+        c['recorded'] = c['mode'] if (c['mode'] == 'exp' or rng.random() < 0.5) else None
+    return c
+
+
+def served_history(c):
+    """the configuration history of the route, as events of the cache model (CacheConf.XOp); `add` stands for a loader
+    object the user builds himself (mode `own`) and puts into the cache"""
+    k = MODES.index(c['mode'])
+    r = c['route']
+    if r == 'cache':
+        return [['setPath', 0], ['setInterp', k], ['get']]
+    if r == 'cache-default':
+        return [['setPath', 0], ['get']]
+    if r == 'hand':
+        return [['setPath', 0], ['add'], ['get']]
+    if r == 'hand-then-set':
+        pre = [] if c['recorded'] is None else [['setInterp', MODES.index(c['recorded'])]]
+        return [['setPath', 0]] + pre + [['add'], ['setInterp', k], ['get']]
+    if r == 'parfile':
+        return [['parfile', 0, k, None], ['get']]
+    if r == 'set-then-unset':
+        # a mode is selected, a molecule served, then the setting is taken back (or changed) before the request judged
+        other = 1 - k
+        return [['setPath', 0], ['setInterp', other], ['get'], ['unsetInterp'] if k == 0 else ['setInterp', k], ['get']]
+    raise ValueError(r)
+
+
+def eval_served(ctx, c):
+    import os
+    from harness.c14 import scratch_env, fresh_dir
+    from taurex.cache import OpacityCache, GlobalCache
+    from taurex.cache.ktablecache import KTableCache
+    tg, pg, tab, wn = (np.asarray(c[k], float) for k in ('tg', 'pg', 'tab', 'wn'))
+    T, P, sub = c['T'], c['P'], c.get('sub')
+    container, route, mol, single = c['container'], c['route'], c['mol'], bool(c['single'])
+    isk = container in ('kpickle', 'khdf')
+    weights = None if c.get('weights') is None else np.asarray(c['weights'], float)
+    c = dict(c, tg=tg, pg=pg, tab=tab, wn=wn, weights=weights)
+    req = None if sub is None else wn[sub[0]:sub[1] + 1].copy()
+    small = dict(served=True, container=container, route=route, single=single, streamed=c.get('streamed'), T=T, P=P,
+                 region=c.get('region'), shape=list(tab.shape), sub=sub, recorded=c.get('recorded'), own=c.get('own'))
+    full = dict(C.jsonable(c))
+    with scratch_env() as root:
+        d = fresh_dir(root, 'served')
+        path = write_container(d, container, mol, c, single)
+        gc = GlobalCache()
+        for key in ('xsec_path', 'ktable_path', 'xsec_interpolation', 'xsec_in_memory', 'opacity_method'):
+            gc.variable_dict.pop(key, None)
+        OpacityCache().clear_cache()
+        KTableCache().clear_cache()
+        cache = KTableCache() if isk else OpacityCache()
+        if route == 'ctor':
+            obj = construct(container, path, c['mode'], c.get('streamed'))
+            mode = c['mode']
+        else:
+            # ---- the real history, and the same history on the cache model
+            hist = served_history(c)
+            toks = ['1', '1', '1', {'hdf': '0', 'pickle': '1', 'kpickle': '3', 'khdf': '4'}[container], '0', C.S(mol), C.S(mol),
+                    str(len(hist))]
+            obj = None
+            keep = []
+            for h in hist:
+                if h[0] == 'setPath':
+                    (cache.set_ktable_path if isk else cache.set_opacity_path)(d)
+                    toks += ['1', '0']
+                elif h[0] == 'setInterp':
+                    OpacityCache().set_interpolation(MODES[h[1]])
+                    toks += ['2', str(h[1])]
+                elif h[0] == 'unsetInterp':
+                    OpacityCache().set_interpolation(None)
+                    toks += ['6']
+                elif h[0] == 'add':
+                    mine = construct(container, path, c['own'])
+                    keep.append(mine)
+                    cache.add_opacity(mine)
+                    toks += ['5', C.S(mol), str(MODES.index(mine._interp_mode))]
+                elif h[0] == 'parfile':
+                    from taurex.parameter import ParameterParser
+                    pf = os.path.join(root, 'served.par')
+                    with open(pf, 'w') as fh:
+                        fh.write('[Global]\n%s = %s\nxsec_interpolation = %s\n'
+                                 % ('ktable_path' if isk else 'xsec_path', d, MODES[h[2]]))
+                    pp = ParameterParser()
+                    pp.read(pf)
+                    pp.setup_globals()
+                    toks += ['8', '1', '0', '1', str(h[2]), '0']
+                else:
+                    obj = cache[mol]
+                    keep.append(obj)
+                    toks += ['0', C.S(mol)]
+            dm = ctx.model('C14').call('c14.kcache' if isk else 'c14.cache', *toks)
+
+            def rd():
+                code = dm.nat()
+                r = dict(code=code)
+                if code == 0:
+                    r.update(id=dm.nat(), mol=dm.str(), mode=dm.nat(), inmem=dm.nat(), src=dm.opt(dm.nat))
+                dm.nat()
+                dm.list(dm.str)
+                return r
+            last = dm.list(rd)[-1]
+            if last['code'] != 0:
+                raise C.InfraError('cache model does not serve the molecule of a served case: %r' % (last,))
+            mode = MODES[last['mode']]
+        ctx.bucket('served:route:' + route)
+        if route == 'hand-then-set' and (c.get('recorded') or 'linear') == c['mode']:
+            ctx.bucket('served:hand-then-set:the-set-repeats-the-recorded-mode')
+        ctx.bucket('served:container:' + container + (':single' if single else ':double'))
+        todo = single and ((container, None) in SINGLE_KEPT or
+                           (c.get('streamed') and (container, 'streamed') in SINGLE_KEPT))
+        scale = float(tab.max()) / 1e4
+        nontrivial = bool(tab.max() > tab.min())
+        points = [(T, P, sub, c.get('region'))] + [(float(a), float(b), None, 'cell-interior') for a, b in c.get('extra') or []]
+        for (T, P, sub, region) in points:
+            req = None if sub is None else wn[sub[0]:sub[1] + 1].copy()
+            try:
+                out = np.asarray(obj.opacity(T, P, req), float).ravel()
+            except Exception as e:
+                ctx.violation('served:raises:%s:%s' % (container, route), 'opacity() of a served table raised %r' % (e,),
+                              dict(full, T=T, P=P, sub=sub))
+                return
+            tabs = tables_for_model(tab, tuple(sub) if sub else None)
+            dmod = ctx.model().call('c04.opacity', C.N(MODES.index(mode)), C.L(tg), C.L(pg),
+                                    C.LLL([t.tolist() for t in tabs]), C.F(T), C.F(P))
+            mod = np.array(dmod.list())
+            rel, floor = (SINGLE_REL, SINGLE_FLOOR) if todo else (1e-9, 0.0)
+            if todo:
+                ctx.bucket('served:single-precision-kept-by-loader(judged at single precision):' + container)
+            ctx.case(key=('served', container, route, mode, single, region) if nontrivial else None,
+                     sample=dict(small, T=T, P=P, mode=mode, impl=out[:3], model=mod[:3]), bucket='served:region:' + str(region))
+            ctx.bucket('served:mode:' + mode)
+            ctx.check_close('opacity() of the table served from a real container vs Interp.computeOpacity in the mode the '
+                            'configuration selects (CacheConf)', out, mod,
+                            dict(small, T=T, P=P, sub=sub, mode=mode, tg=tg, pg=pg, tab=tab), rel=rel,
+                            abs_=(1e-6 if todo else 1e-13) * scale + floor)
+            # (a replay evaluates the judged point first: the failing point becomes the case's own point)
+            predicates(ctx, out, tg, pg, tab, tabs, T, P, mode,
+                       dict(full, T=T, P=P, sub=sub, region=region, extra=[], mode_in_force=mode),
+                       kp='served:%s:%s:' % (container, route), rel=rel, floor=floor)
+        obj = None
+        keep = None
+
+
+def served_stream(ctx):
+    for k in range(ctx.n(168, 3360)):
+        eval_served(ctx, gen_served(ctx.rng, k))
+
+
+USES_MODELS = ['C14']
+
+
 def run(ctx):
     validate_searchsorted(ctx)
     reuse_stream(ctx)
+    served_stream(ctx)
     n = ctx.n(360, 12000)
     for k in range(n):
         eval_case(ctx, gen_case(ctx.rng, k))
@@ -336,4 +626,8 @@ def run(ctx):
 
 
 def replay(ctx, case):
+    case = case.get('case', case)
+    if case.get('served'):
+        eval_served(ctx, case)
+        return
     eval_case(ctx, case)
